@@ -1009,7 +1009,7 @@ func (i *Input) getKeyPairs() ([]KeyPair, error) {
 		kp := KeyPair{
 			Key: Key{
 				KeyType: PsetProprietary,
-				KeyData: proprietaryKey(v.Subtype, v.KeyData),
+				KeyData: proprietaryKeyWithIdentifier(v.Identifier, v.Subtype, v.KeyData),
 			},
 			Value: v.Value,
 		}
@@ -1497,6 +1497,9 @@ func (i *Input) deserialize(buf *bytes.Buffer) error {
 				default:
 					i.ProprietaryData = append(i.ProprietaryData, pd)
 				}
+			} else {
+				// an entry of another identifier: keep it as it is
+				i.ProprietaryData = append(i.ProprietaryData, pd)
 			}
 		default:
 			i.Unknowns = append(i.Unknowns, kp)
